@@ -105,7 +105,9 @@ theorem setSrc_susp (s : State) (i : Nat) (v : Val) : SameSusp s (setSrc s i v) 
       exact fin _ (h0.trans (smMarkDirty_susp _))
     · dsimp only
       rw [if_neg hv]
-      exact fin _ (h0.trans (dMarkDirty_susp _))
+      split
+      · exact fin _ (h0.trans (dMarkDirty_susp _))
+      · exact fin _ h0
   · exact SameSusp.refl s
 
 theorem refetch_susp (s : State) : SameSusp s (refetch s) := by
